@@ -1186,6 +1186,23 @@ fn emit_fn(ctx: &mut Ctx, d: &FnDir, out: &mut String) {
         }
         let _ = writeln!(out, "//vx-end {} {}", tag, qual);
     };
+    // explicit signature substitutions (monomorphisation of `impl Trait` parameters), listed in the report
+    let mut head = head;
+    let mut head_vac = head_vac;
+    for (k, v) in &d.opts {
+        if k.starts_with("sigsub") {
+            let (from, to) = v.split_once("=>").unwrap_or_else(|| die("sigsubN= expects from=>to"));
+            let fromp = pretty(TokenStream::from_str(from).unwrap_or_else(|_| die("bad sigsub")), 0);
+            let h = pretty(head.clone(), 0);
+            if !h.contains(fromp.trim()) {
+                die(&format!("lost anchor: signature substitution `{}` matches nothing in {}", fromp.trim(), d.path));
+            }
+            head = TokenStream::from_str(&h.replace(fromp.trim(), to.trim())).unwrap_or_else(|_| die("sigsub result does not tokenize"));
+            let hv = pretty(head_vac.clone(), 0);
+            head_vac = TokenStream::from_str(&hv.replace(fromp.trim(), to.trim())).unwrap_or_else(|_| die("sigsub result does not tokenize"));
+            subs_done.push(format!("[signature] {} => {}", from.trim(), to.trim()));
+        }
+    }
     emit_one(head, &d.spec, "fn", out);
     let trait_method = f.trait_.is_some() && !d.opts.contains_key("inherent") && !free;
     if ctx.vacuity && !d.opts.contains_key("novac") && !trait_method {
